@@ -788,10 +788,19 @@ def assembly(check, prog):
             if ok:
                 fitted, errs, nms = g[1], p[1], nme[1]
                 mn = q.rpartition('.')[0] + '.minimize'
-                okf = fitted[0] == 'idx' and fitted[2] == num(0) and \
-                    fitted[1][0] == 'call' and (
-                        fitted[1][1] == mn or
-                        (isinstance(fitted[1][1], tuple) and fitted[1][1][2] == 'minimize'))
+                # (the same call reached on two branches of the set-up -- with and
+                # without a pixel subset -- is an alternative of two such calls)
+                def alts(t):
+                    if t[0] == 'ite':
+                        return alts(t[2]) | alts(t[3])
+                    if t[0] == 'idx' and t[1][0] == 'ite':
+                        return {intern(('idx', a_, t[2])) for a_ in alts(t[1])}
+                    return {t}
+                okf = all(f_[0] == 'idx' and f_[2] == num(0) and
+                          f_[1][0] == 'call' and (
+                              f_[1][1] == mn or
+                              (isinstance(f_[1][1], tuple) and f_[1][1][2] == 'minimize'))
+                          for f_ in alts(fitted))
                 oke = any(x[0] == 'attr' and x[2] == 'unscale' for x in subterms(errs)) \
                     or bool(calls_in(errs, 'unscale_pars_from_minimizer'))
                 okn = nms == ('attr', model, '_parameter_names')
